@@ -4,7 +4,7 @@
   configured by the user) does to the commands the bisync parser meets.
 -/
 import GunYu.Model.Bisync
-import GunYu.Props.C10
+import GunYu.Proofs.FilterCmdKey
 
 namespace GunYu.Bisync
 open GunYu GunYu.BisyncUnit GunYu.Filter
@@ -32,23 +32,37 @@ theorem out_hasKeyRules (c : FilterCfg) : (buildOutput c).hasKeyRules = true := 
     right; left; simp [reservedPrefixes]
   simp [KeyFilter.hasKeyRules, this]
 
+theorem passthrough (f : KeyFilter) (cmd : Bytes) (args : List Bytes)
+    (h : f.hasKeyRules = false ∨ keyIndexes cmd args = none) : f.filterCmdKey cmd args = some args := by
+  unfold KeyFilter.filterCmdKey
+  rcases h with h | h
+  · simp [h]
+  · simp [h]
+
+theorem default_filterKey_iff (k : Bytes) :
+    (buildOutput {}).filterKey k = true ↔ prefixHit reservedPrefixes k := by
+  rw [filterKey_eq, out_prefBlack, out_prefWhite]
+  have hw : (insertPrefixes none ([] : List Bytes)) = none := rfl
+  have : (({} : FilterCfg).prefWhite) = [] := rfl
+  rw [this, hw]
+  simp only [Option.isSome_none, Bool.false_and, Bool.or_false]
+  rw [optMatch_prefixes2, List.append_nil]
+
+theorem default_filterSlot (k : Bytes) : (buildOutput {}).filterSlot k = false := by
+  rw [filterSlot_eq, out_slotWhite, out_slotBlack]
+  rfl
+
 theorem default_keyRejected_iff (k : Bytes) :
     (buildOutput {}).keyRejected k = true ↔ FilterReserved k := by
   unfold KeyFilter.keyRejected
-  rw [Bool.or_eq_true, Props.C10.filterKey_iff, Props.C10.filterSlot_iff]
+  rw [default_filterSlot, Bool.or_false, default_filterKey_iff]
   constructor
-  · rintro (h | h)
-    · rcases h with ⟨p, hp, _, hpre⟩ | ⟨h, _⟩
-      · simp only [List.append_nil, reservedPrefixes, List.mem_cons, List.not_mem_nil, or_false] at hp
-        rcases hp with e | e
-        · left; rw [← e]; exact hpre
-        · right; rw [← e]; exact hpre
-      · exact absurd rfl h
-    · rcases h with ⟨e, he, _⟩ | ⟨h, _⟩
-      · simp at he
-      · exact absurd rfl h
+  · rintro ⟨p, hp, _, hpre⟩
+    simp only [reservedPrefixes, List.mem_cons, List.not_mem_nil, or_false] at hp
+    rcases hp with e | e
+    · left; rw [← e]; exact hpre
+    · right; rw [← e]; exact hpre
   · intro h
-    left; left
     rcases h with h | h
     · exact ⟨Gen.checkpointKey, by simp [reservedPrefixes], by decide, h⟩
     · exact ⟨Gen.namespacePrefixKey, by simp [reservedPrefixes], by decide, h⟩
@@ -56,11 +70,9 @@ theorem default_keyRejected_iff (k : Bytes) :
 theorem defaultFilter_ok : FOK (buildOutput {}) where
   db := by
     intro n
-    cases h : (buildOutput {}).filterDb n with
-    | false => rfl
-    | true =>
-      have := (Props.C10.db_iff {} n).mp h
-      simp at this
+    unfold KeyFilter.filterDb
+    rw [out_dbBlack]
+    by_cases h : n = -1 <;> simp [h]
   setCmd := by decide +kernel
   delCmd := by decide +kernel
   unlinkCmd := by decide +kernel
@@ -68,7 +80,7 @@ theorem defaultFilter_ok : FOK (buildOutput {}) where
   keyPass := by
     intro name args h
     cases hk : keyIndexes name args with
-    | none => exact Props.C10.filterCmdKey_passthrough _ _ _ (Or.inr hk)
+    | none => exact passthrough _ _ _ (Or.inr hk)
     | some idx =>
       rw [filterCmdKey_resolved _ _ _ idx (out_hasKeyRules {}) hk]
       have hkept : keptIdx (buildOutput {}) args idx = idx := by
@@ -84,7 +96,7 @@ theorem defaultFilter_ok : FOK (buildOutput {}) where
   allReserved := by
     intro name args idx hk h
     rw [filterCmdKey_resolved _ _ _ idx (out_hasKeyRules {}) hk]
-    have hne := (Props.C10.keyPositions_inRange name args idx hk).1
+    have hne := (keyIndexes_inRange hk).1
     have hkept : keptIdx (buildOutput {}) args idx = [] := by
       unfold keptIdx
       rw [List.filter_eq_nil_iff]
@@ -109,7 +121,7 @@ theorem filterCmdKey_sub (f : KeyFilter) (cmd : Bytes) (args a' : List Bytes)
   by_cases hr : f.hasKeyRules = true
   · cases hk : keyIndexes cmd args with
     | none =>
-      rw [Props.C10.filterCmdKey_passthrough f cmd args (Or.inr hk)] at h
+      rw [passthrough f cmd args (Or.inr hk)] at h
       injection h with h; exact hsame h.symm
     | some idx =>
       rw [filterCmdKey_resolved f cmd args idx hr hk] at h
@@ -165,7 +177,7 @@ theorem filterCmdKey_sub (f : KeyFilter) (cmd : Bytes) (args a' : List Bytes)
       cases hx : f.hasKeyRules with
       | true => exact absurd hx hr
       | false => rfl
-    rw [Props.C10.filterCmdKey_passthrough f cmd args (Or.inl hr')] at h
+    rw [passthrough f cmd args (Or.inl hr')] at h
     injection h with h; exact hsame h.symm
 
 /-! ### reserved prefixes versus the bisync namespace -/
